@@ -76,8 +76,19 @@ func genDocMapping(r *Rng, depth int, usedCustom *bool) *mapping.DocumentMapping
 	if r.Chance(15) {
 		dm.StructTagKey = "json"
 	}
+	// containers that are allocated but empty: JSON leaves them out (omitempty) and gives back nil
+	if len(dm.Fields) == 0 && r.Chance(25) {
+		dm.Fields = []*mapping.FieldMapping{}
+		c16EmptyContainers++
+	}
+	if len(dm.Properties) == 0 && r.Chance(25) {
+		dm.Properties = map[string]*mapping.DocumentMapping{}
+		c16EmptyContainers++
+	}
 	return dm
 }
+
+var c16EmptyContainers int
 
 func genIndexMapping(r *Rng) *mapping.IndexMappingImpl {
 	im := bleve.NewIndexMapping()
@@ -306,5 +317,6 @@ func runC16(t *Trace, r *Rng, tier string, _ []string) {
 	}
 	t.Set("mappings_with_custom_analysis", custom)
 	t.Set("mappings_with_sub_documents", nested)
+	t.Set("allocated_but_empty_containers", c16EmptyContainers)
 	t.Set("generated_mappings_rejected_by_validate", invalid)
 }
